@@ -26,6 +26,13 @@
 (*           weight factor (all 0 for Dijkstra / no target)                *)
 (*   itl,szl iteration / solution-size limits (-1 = none)                  *)
 (*   init    <<distance, time>> initial state                              *)
+(*   cu      <<nd, dd, nt, dt>>: the state is kept here in metres and      *)
+(*           seconds whatever unit the state features are declared in; one *)
+(*           metre of distance change is nd/dd milli-cost at weight and    *)
+(*           rate 1 (1000/1 for a feature in metres, 1/1 in kilometres),   *)
+(*           one second of time change nt/dt (1000/1 seconds, 50/3         *)
+(*           minutes, 5/18 hours, 1000000/1 milliseconds): costs are       *)
+(*           charged on the change of the feature in ITS OWN unit          *)
 (*   ties    TRUE: on an exact tie of tentative and existing label either  *)
 (*           outcome of the comparison is possible (the code compares      *)
 (*           floating-point sums that differ in the last bits)             *)
@@ -79,9 +86,10 @@ NextSt(st, p, e) == <<st[1] + ELen(e), st[2] + Delay(p, e) + ETime(e)>>
 
 (* CostModel (sum aggregation): weights x vehicle rate x delta + weighted network surcharge, floored *)
 Pos(x) == IF x <= 0 THEN 0 ELSE x                         \* MIN_COST = 1e-10 is 0 in milli-units
-Veh(a, b) == scn.wd * scn.rd * (b[1] - a[1]) + scn.wt * scn.rt * (b[2] - a[2])
-Total(st, p, e) == K * Pos(Veh(st, NextSt(st, p, e)) + scn.wd * scn.sur[e])
-AccCost(st, p, e) == IF p = 0 THEN 0 ELSE K * Pos(Veh(st, AccSt(st, p, e)))
+Veh(a, b) == (scn.wd * scn.rd * (b[1] - a[1]) * scn.cu[1]) \div scn.cu[2]       \* in milli-cost
+             + (scn.wt * scn.rt * (b[2] - a[2]) * scn.cu[3]) \div scn.cu[4]
+Total(st, p, e) == Pos(Veh(st, NextSt(st, p, e)) + K * scn.wd * scn.sur[e])
+AccCost(st, p, e) == IF p = 0 THEN 0 ELSE Pos(Veh(st, AccSt(st, p, e)))
 TrvCost(st, p, e) == Total(st, p, e) - AccCost(st, p, e)
 
 H(v) == IF scn.dst = 0 THEN 0 ELSE scn.h[v]
